@@ -1,8 +1,127 @@
-import RNacos.Model.LogFile
-/-! # C02 — (theorems under construction) -/
-namespace RNacos.Props.C02
-open RNacos.LogFile
+import RNacos.Lemmas.LogHistory
+/-!
+# C02 — Raft log: acknowledged entries survive reopen unchanged; none are invented
 
-example : (write (create 1 0 0) ⟨1, 1, [7]⟩).2 = .success := by decide
+Model: `RNacos/Model/LogFile.lean` – one log file (`LogInnerManager`) byte by byte: header, varint index area,
+length-prefixed record stream, zero padding, the cursors and the data handle's position.
+Specification: a list of entries (`stepA`): an append is taken iff it is acknowledged, a truncation keeps the
+entries below the cut, a reopen changes nothing.
+
+`WF f es` ("file `f` holds exactly `es`") is the representation invariant; `run_wf` shows it for every history.
+The theorems below are its observable consequences.  The 1024-byte chunked readers are represented by the
+whole-stream parse (`scanFrames`); C20's `drain_any_chunking` / `scan_any_chunking` prove the chunked readers
+equal to it for every chunking of a stream of this shape (frames followed by zeros).
+-/
+namespace RNacos.Props.C02
+open RNacos.LogFile RNacos.Spec.Stream
+
+/-- the state reached by a history from a new file -/
+def after (start pre split : Nat) (ops : List Op) : LogFile × List Rec := run (create start pre split, []) ops
+
+/-- **refinement for every history** (append / rejected append / truncation / reopen, any payload sizes, any
+number of index steps): the file holds exactly the specified log -/
+theorem history_holds_spec (start pre split : Nat) (ops : List Op) (hs : start < 2 ^ 64) (hp : pre < 2 ^ 64)
+    (hok : HistOK (create start pre split) ops) :
+    WF (after start pre split ops).1 (after start pre split ops).2 :=
+  run_wf ops _ _ (create_wf start pre split 128 4096 (by omega) (by omega) (by omega) (by decide) hs hp) hok
+
+/-- **reads return exactly the acknowledged entries**: same index, term and payload, contiguous, in order
+(the slice `[max a split_off, min b end)` of the specified log) -/
+theorem read_returns_spec (f : LogFile) (es : List Rec) (a b : Nat) (h : WF f es) :
+    readRecords f a b = some ((es.drop (max a f.splitOff - f.startIndex)).take (min b (endIndex f) - max a f.splitOff)) :=
+  read_wf f es a b h
+
+/-- **nothing is invented**: whatever a read returns is an entry of the specified log -/
+theorem read_subset_spec (f : LogFile) (es : List Rec) (a b : Nat) (h : WF f es) (rs : List Rec)
+    (hr : readRecords f a b = some rs) : ∀ r ∈ rs, r ∈ es := by
+  rw [read_wf f es a b h] at hr
+  cases hr
+  intro r hr
+  exact List.mem_of_mem_drop (List.mem_of_mem_take hr)
+
+/-- the entries are contiguous from the file's first index -/
+theorem spec_contiguous (f : LogFile) (es : List Rec) (h : WF f es) (i : Nat) (hi : i < es.length) :
+    es[i].index = f.startIndex + i := h.idx i hi
+
+theorem startIndex_initTerm (f : LogFile) (t : Nat) : (initTerm f t).startIndex = f.startIndex := by
+  unfold initTerm
+  split
+  · split
+    · rfl
+    · split <;> rfl
+  · rfl
+
+/-- **reopen**: closing and reopening (from the bytes alone – cursors, index list and counters are recomputed)
+gives a file holding the same entries, with the same end index -/
+theorem reopen_same_entries (f : LogFile) (es : List Rec) (h : WF f es) (fl pre sp : Nat) :
+    WF (load f.bytes fl f.startIndex pre sp) es ∧
+    endIndex (load f.bytes fl f.startIndex pre sp) = endIndex f := by
+  have hw := load_wf f es h fl pre sp
+  refine ⟨hw, ?_⟩
+  rw [endIndex_wf _ es hw, endIndex_wf f es h, (load_eq f es h fl pre sp).1, startIndex_initTerm]
+  rfl
+
+/-- **the last entry is reported** after a reopen: last index and term are those of the last stored entry
+(provided the catalogue has not split it off) -/
+theorem reopen_reports_last (f : LogFile) (es : List Rec) (h : WF f es) (fl pre sp : Nat) (hne : es ≠ [])
+    (hsp : max sp f.startIndex < endIndex f) :
+    lastInfo (load f.bytes fl f.startIndex pre sp) = ((es.getLast hne).index, (es.getLast hne).term) := by
+  obtain ⟨hw, he⟩ := reopen_same_entries f es h fl pre sp
+  obtain ⟨hl, hw0⟩ := load_eq f es h fl pre sp
+  have hlen : 0 < es.length := List.length_pos_iff.mpr hne
+  have hend := endIndex_wf f es h
+  unfold lastInfo
+  rw [he]
+  congr 1
+  · rw [List.getLast_eq_getElem hne, h.idx (es.length - 1) (by omega), hend]; omega
+  · rw [hl]
+    apply initTerm_lastTerm _ es pre hw0 hne
+    have : endIndex (reloaded f es fl pre sp) = endIndex f := by
+      rw [endIndex_wf _ es hw0, hend]; rfl
+    rw [this]; exact hsp
+
+/-- an empty log reports the index before its first one and the catalogue's previous term -/
+theorem reopen_reports_empty (f : LogFile) (h : WF f []) (fl pre sp : Nat) :
+    lastInfo (load f.bytes fl f.startIndex pre sp) = (f.startIndex - 1, pre) := by
+  obtain ⟨hl, hw0⟩ := load_eq f [] h fl pre sp
+  rw [hl]
+  unfold lastInfo initTerm
+  have : ¬ ((reloaded f [] fl pre sp).msgCount > 0) := by simp [reloaded]
+  simp only [this, if_false]
+  simp [endIndex, reloaded]
+
+/-- **appends**: an acknowledged append is the contiguous one, it becomes the last entry; a non-contiguous one is
+refused and changes nothing -/
+theorem append_ack (f : LogFile) (es : List Rec) (r : Rec) (h : WF f es) (hfull : isFull f = false)
+    (hidx : r.index = endIndex f) (hr : RecOK r) (hsz : f.dataCursor + (frame (recBody r)).length < 2 ^ 64) :
+    WF (write f r).1 (es ++ [r]) ∧ lastInfo (write f r).1 = (r.index, r.term) := by
+  obtain ⟨hw, ht, _⟩ := write_wf f es r h hfull hidx hr hsz
+  refine ⟨hw, ?_⟩
+  unfold lastInfo
+  rw [ht, endIndex_wf _ _ hw, hidx, endIndex_wf f es h]
+  have : (write f r).1.startIndex = f.startIndex := by
+    unfold write; simp only [hfull, Bool.false_eq_true, if_false]
+    have hne : ¬ (endIndex f ≠ r.index) := by simp [hidx]
+    simp only [hne, if_false]
+    split <;> rfl
+  rw [this]; simp
+
+theorem append_refused (f : LogFile) (r : Rec) (hfull : isFull f = false) (hidx : r.index ≠ endIndex f) :
+    write f r = (f, .indexEqualError) := by
+  unfold write
+  have : endIndex f ≠ r.index := fun e => hidx e.symm
+  simp [hfull, this]
+
+/-! ### non-vacuity: the hypotheses are met by concrete states -/
+example : RecOK ⟨1, 1, [7, 8, 9]⟩ ∧ isFull (create 1 0 0) = false ∧ (⟨1, 1, [7, 8, 9]⟩ : Rec).index = endIndex (create 1 0 0) := by
+  refine ⟨by unfold RecOK; decide, by decide, by decide⟩
+
+/-- a history with an accepted append, a truncation, a reopen and a re-append, evaluated by the kernel: the
+side conditions hold and the specified log is what one expects -/
+example :
+    let ops : List Op := [.append ⟨1, 1, [7]⟩, .append ⟨2, 1, []⟩, .strip 2, .reopen 0 0, .append ⟨2, 3, [1, 2]⟩]
+    (after 1 0 0 ops).2 = [⟨1, 1, [7]⟩, ⟨2, 3, [1, 2]⟩] ∧
+    readRecords (after 1 0 0 ops).1 0 9 = some [⟨1, 1, [7]⟩, ⟨2, 3, [1, 2]⟩] := by
+  decide +kernel
 
 end RNacos.Props.C02
